@@ -748,6 +748,12 @@ def emit_frame_loc(ctx, stratum, fr, frl, fdesc, route, rkey, ckey, rkind, ckind
 
 
 # ------------------------------------------------------------------------------------------ strata: Frame
+def _bad_pk(pk, n):
+    '''The key must raise: malformed, or repeating a position (repeated labels).'''
+    pos = pk.positions(n)
+    return pos is None or len(set(pos)) != len(pos)
+
+
 def api_frame_iloc(ctx):
     rng = ctx.rng
     pats = PATTERNS_QUICK if ctx.tier == 'quick' else PATTERNS_THOROUGH
@@ -757,8 +763,8 @@ def api_frame_iloc(ctx):
         for _ in range(per_frame):
             rk = random_pk(rng, nr)
             ck = random_pk(rng, nc) if rng.random() < 0.85 else None
-            if rk.positions(nr) is None and ck is not None and ck.positions(nc) is None:
-                ck = pk_none()      # at most one malformed axis
+            if ck is not None and _bad_pk(rk, nr) and _bad_pk(ck, nc):
+                ck = pk_none()      # at most one axis that must raise (the class of the FIRST error is not modelled)
             yield from emit_frame_iloc(ctx, 'api:frame.iloc', fr, frl, fdesc, rk, ck)
 
 
